@@ -144,6 +144,18 @@ func NewEx(conf *Config, fset *token.FileSet, files ...*ast.File) (ret Result, e
 			onConflict(fset, item.c, firsts, i, at)
 		})
 	}
+	// reject left-recursive rules (they would recurse without bound when
+	// matched), also those not involving a choice: computing the first set
+	// of a left-recursive rule panics with matcher.RecursiveError.
+	for _, f := range files {
+		for _, decl := range f.Decls {
+			if decl, ok := decl.(*ast.Rule); ok {
+				if v := rules[decl.Name.Name]; v.Elem != nil {
+					v.First(nil)
+				}
+			}
+		}
+	}
 	ret = Result{doc, rules}
 	return
 }
